@@ -26,7 +26,7 @@ from glue.core.component_link import ComponentLink
 from glue.core.coordinates import AffineCoordinates
 from glue.core.exceptions import IncompatibleAttribute, IncompatibleDataException
 from glue.core.link_helpers import LinkSame, LinkTwoWay
-from glue.core.subset import RangeSubsetState
+from glue.core.subset import RangeSubsetState, SliceSubsetState
 
 from vf.common import affine_matrix, exc_name, injective_floats, rand_floats, rand_ints
 
@@ -111,6 +111,7 @@ class DS(object):
         self.states = []        # (kind, glue state, numpy function arrays->mask)
         self.dask = False
         self.atts = []
+        self.aligned = {}       # name of a dataset this one is pixel-aligned with -> [its axis for each own axis]
 
 
 def fill_components(rng, ds, coords=None, dask=False):
@@ -139,7 +140,46 @@ def fill_components(rng, ds, coords=None, dask=False):
     return d
 
 
-def make_states(rng, ds):
+def backward_slice(rng, n):
+    """A slice that runs backwards (negative step), possibly selecting nothing."""
+    r = rng.random()
+    st = -rng.choice([1, 1, 2, 3])
+    if r < 0.3:
+        return slice(None, None, st)
+    if r < 0.5:
+        return slice(n - 1, 0, st)
+    if r < 0.7:
+        hi = rng.randrange(n)
+        lo = rng.randrange(-1, hi + 1)
+        return slice(hi, lo if lo >= 0 else None, st)
+    if r < 0.85:
+        return slice(None, rng.randrange(n), st)
+    return slice(rng.randrange(n), None, st)
+
+
+def backward_slices(rng, shape):
+    nd = len(shape)
+    must = rng.randrange(nd)
+    out = []
+    for j, n in enumerate(shape):
+        r = rng.random()
+        if j == must or r < 0.4:
+            out.append(backward_slice(rng, n))
+        elif r < 0.7:
+            out.append(slice(None))
+        else:
+            a_ = rng.randrange(n)
+            out.append(slice(a_, rng.randint(a_, n), rng.choice([None, 1, 2])))
+    return out
+
+
+def slice_mask(shape, slices):
+    m = np.zeros(shape, dtype=bool)
+    m[tuple(slices)] = True
+    return m
+
+
+def make_states(rng, ds, world=None):
     d, a = ds.data, ds.arrays
     wv = sorted(a["w"].ravel().tolist())
     t1 = rng.choice(wv)
@@ -157,6 +197,23 @@ def make_states(rng, ds):
         ("range", RangeSubsetState(lo, hi, att=d.id["w"]), lambda a, lo=lo, hi=hi: (a["w"] >= lo) & (a["w"] <= hi)),
         ("pixel", d.pixel_component_ids[j] >= k, lambda a, pix=pix, k=k: pix >= k),
     ]
+    # selections by array slices that run backwards, defined on the dataset itself ...
+    from glue.viewers.image.pixel_selection_subset_state import PixelSubsetState
+    sl = backward_slices(rng, ds.shape)
+    out.append(("slice_backward", SliceSubsetState(d, list(sl)), lambda a, m=slice_mask(ds.shape, sl): m))
+    sl = backward_slices(rng, ds.shape)
+    out.append(("pixelstate_backward", PixelSubsetState(d, list(sl)), lambda a, m=slice_mask(ds.shape, sl): m))
+    # ... and on a dataset this one is pixel-aligned with (identity links, possibly permuted axes): own axis j
+    # follows the reference's slice for its axis order[j]; reference axes this dataset lacks are left unsliced
+    if world is not None:
+        for rname, order in sorted(ds.aligned.items()):
+            ref = world.ds[rname]
+            own = backward_slices(rng, ds.shape)
+            rsl = [slice(None)] * ref.ndim
+            for j_, i_ in enumerate(order):
+                rsl[i_] = own[j_]
+            out.append(("slice_backward_on_aligned_%s" % ("permuted" if order != sorted(order) else "same_order"),
+                        SliceSubsetState(ref.data, rsl), lambda a, m=slice_mask(ds.shape, own): m))
     ds.states = out
 
 
@@ -273,8 +330,11 @@ def build_world(rng, viewer=False):
             shape = rshape(rng, nX, minlen)
             if same_shape_as is not None and same_shape_as.ndim == nX and rng.random() < 0.5:
                 shape = same_shape_as.shape
-            X = DS(name, shape)
+            aligned = rng.random() < 0.3          # every axis an identity link: a pixel-aligned (maybe permuted) dataset
             perm = rng.sample(range(parent.ndim), nX)
+            if aligned and rng.random() < 0.7:
+                shape = tuple(parent.shape[i] for i in perm)
+            X = DS(name, shape)
             X.M = np.zeros((nX, ndT))
             X.c = np.zeros(nX)
             X.axis = []
@@ -283,6 +343,8 @@ def build_world(rng, viewer=False):
             for j in range(nX):
                 a = rng.choice(SCALES)
                 b = rng.choice(OFFSETS)
+                if aligned:
+                    a, b = 1.0, 0.0
                 if a < 0 and rng.random() < 0.7:
                     b = float(shape[j] - 1)      # a flip that stays inside the array
                 i = perm[j]
@@ -291,13 +353,16 @@ def build_world(rng, viewer=False):
                 X.M[j, pk] = a * pa
                 X.c[j] = a * pb + b
                 pc, xc = parent.data.pixel_component_ids[i], X.data.pixel_component_ids[j]
-                if a == 1.0 and b == 0.0 and rng.random() < 0.6:
+                if a == 1.0 and b == 0.0 and (aligned or rng.random() < 0.6):
                     links.append(LinkSame(pc, xc))
                     spec.append([i, "same"])
                 else:
                     links.append(LinkTwoWay(pc, xc, Lin(a, b), LinInv(a, b)))
                     spec.append([i, a, b])
             descr[name] = {"shape": list(shape), "parent": parent.name, "axes": spec}
+            if all(sp[1] == "same" for sp in spec):
+                X.aligned[parent.name] = list(perm)
+                descr[name]["pixel_aligned_with"] = parent.name
             return X
 
         def coupled_source(name, dask=False):
@@ -336,7 +401,7 @@ def build_world(rng, viewer=False):
             B = coupled_source("B")
     w.ds = {"T": T, "A": A, "B": B}
     for X in w.ds.values():
-        make_states(rng, X)
+        make_states(rng, X, w)
     order = [T, A, B]
     rng.shuffle(order)
     w.dc = DataCollection([X.data for X in order])
@@ -546,6 +611,8 @@ def mutate_request(rng, world, prev):
                 continue
             req["data"] = new
             N = world.ds[new]
+            if req["what"][0] == "state" and req["what"][1] >= len(N.states):
+                req["what"] = ("state", rng.randrange(len(N.states)))
             if req["what"][0] == "att":
                 if req["what"][1] not in N.atts:
                     req["what"] = ("att", "w")
@@ -624,7 +691,11 @@ def np_scalar_vs_range(req, residents):
 def base_sig(world, req, cached, step):
     D = world.ds[req["data"]]
     dask_path = D.dask and (req["what"][0] == "state" or req["what"][1] == "dk")
+    selection = None
+    if req["what"][0] == "state":
+        selection = "backward_slices" if "backward" in D.states[req["what"][1]][0] else "other"
     return {"request": "attribute" if req["what"][0] == "att" else "mask", "cached": cached, "link_mode": world.mode,
+            "selection": selection,
             "dask_path": bool(dask_path), "self_target": req["data"] == req["target"],
             "after": step if cached else None}
 
@@ -647,10 +718,6 @@ def judge(ctx, world, req, exp, out, cached, step, clash=False):
             return False
         sig.update(kind="exception", exc=exc_name(e), numpy_scalar_vs_range_under_id=bool(cached and clash),
                    broadcast_false=not req["broadcast"], unlinked_claim=isinstance(e, IncompatibleAttribute))
-        if cached and clash and isinstance(e, ValueError):
-            # the structural trigger of the known cache-comparison mechanism: keep its signature compact
-            sig = {"kind": "exception", "exc": "ValueError", "cached": True, "numpy_scalar_vs_range_under_id": True,
-                   "request": sig["request"]}
         ctx.violation(sig, detail(error=repr(e)[:300]))
         return False
     try:
@@ -771,9 +838,6 @@ def run_history(ctx, world, case_tag, resident):
                    "link_mode": world.mode, "linked": exp["kind"] == "array",
                    "numpy_scalar_vs_range_under_id": clash,
                    "exc": exc_name(cac["exc"]) if cac["kind"] == "exc" else None}
-            if clash and sig["exc"] == "ValueError":
-                sig = {"kind": sig["kind"], "exc": "ValueError", "numpy_scalar_vs_range_under_id": True,
-                       "request": sig["request"]}
             ctx.violation(sig, {"world": world.descr, "request": describe_request(world, req),
                                 "previous_under_id": describe_request(world, prev) if prev else None,
                                 "uncached": unc.get("array", repr(unc.get("exc"))),
@@ -990,6 +1054,8 @@ def run_viewer(ctx, case_tag):
             ctx.evaluation([world.descr, descr], nontrivial)
             ctx.count("viewer_planes_compared")
             ctx.count("viewer_planes_%s_%s" % (lkind, qk))
+            if lkind == "subset":
+                ctx.count("viewer_subset_planes_%s" % X.states[what[1]][0])
             if exp["aggregated"]:
                 ctx.count("viewer_planes_aggregated")
             if ya > xa:
@@ -1064,6 +1130,13 @@ def floors(counters, tier):
     for k in ("step_attribute", "step_state", "step_data", "step_target", "step_replay_earlier", "step_attribute_vs_mask"):
         if c(k, 0) < 10:
             out.append("fewer than 10 history steps of kind %s" % k)
+    for k in ("what_mask_slice_backward", "what_mask_pixelstate_backward"):
+        if c(k, 0) < 30:
+            out.append("fewer than 30 mask requests with %s" % k)
+    if c("what_mask_slice_backward_on_aligned_permuted", 0) + c("what_mask_slice_backward_on_aligned_same_order", 0) < 20:
+        out.append("fewer than 20 mask requests with a backward slice state defined on a pixel-aligned dataset")
+    if sum(v for k, v in counters.items() if k.startswith("viewer_subset_planes_") and "backward" in k) < 10:
+        out.append("fewer than 10 subset-layer planes with a backward slice state")
     if c("viewer_planes_compared", 0) < 100:
         out.append("fewer than 100 get_sliced_data planes compared")
     for k in ("viewer_planes_aggregated", "viewer_planes_transposed", "viewer_planes_subset_none",
